@@ -124,6 +124,74 @@ def c10(run):
         "seeded histories of add/overwrite/remove/disable/enable/reload/location-disable with events (one location and "
         "parent/child), indexed and linear; TLC checks which rules fire for every event and the class of every refusal")
 
+def c13(run):
+    q = run.tier == "quick"
+    import subprocess
+    # the grammar is enumerated by TLC, one document per initial state
+    docs = os.path.join(run.tmp, "docs.ndjson")
+    st, gen, out = run.model_check("Totality.tla", "Gen_totality.cfg", workers=1, env={"GEN_OUT": docs})
+    ndocs = sum(1 for _ in open(docs))
+    drv = run.build("totaldrv")
+    stride = 4 if q else 1
+    start = (run.seed % stride)
+    body = os.path.join(run.tmp, "total.ndjson")
+    with open(body, "w") as f:
+        f.write(json.dumps({"ev": "header"}) + "\n")
+    offset, crashes = start, 0
+    while offset < ndocs + 3:
+        part = os.path.join(run.tmp, "total-part.ndjson")
+        jr = os.path.join(run.tmp, "total.journal")
+        p = subprocess.run([drv, "-docs", docs, "-stride", str(stride), "-offset", str(offset), "-out", part, "-journal", jr],
+                           cwd=run.tmp, stdout=subprocess.PIPE, stderr=subprocess.PIPE, text=True, timeout=3000)
+        if os.path.exists(part):
+            with open(body, "a") as f:
+                f.write(open(part).read())
+        if p.returncode == 0:
+            break
+        from vcheck import crash_signature
+        sig = crash_signature(p.stderr)
+        last = None
+        try:
+            last = json.loads(open(jr).read().strip().split("\n")[-1])
+        except Exception:
+            pass
+        if sig is None or last is None:
+            raise Broken("totaldrv failed without a crash in rulio: " + p.stderr[-1500:])
+        crashes += 1
+        if crashes > 25:
+            raise Broken("too many crashes")
+        run.violation("process crash (%s) on document %s used as %s (%s state, %s)" % (
+            sig, json.dumps(last["doc"]), last["use"], last["state"], last["via"]),
+            {"journal_last": last, "stderr_head": p.stderr[:2500]}, stage="crash")
+        offset = last["di"] + stride
+    rejected, _ = run.validate("TotalTrace.tla", "TotalTrace.cfg", body, "total", timeout=3000)
+    lines = open(body).read().split("\n")
+    for ln in rejected:
+        e = json.loads(lines[ln - 1])
+        bad = [s for s in e["steps"] if not s["returned"] or s["panic"]]
+        first = bad[0] if bad else next((s for s in e["steps"] if s["name"] != "weird"), e["steps"][-1])
+        what = "document %s as %s (%s state, %s): step %s %s" % (e["json"][:160], e["use"], e["state"], e["via"], first["name"],
+               "DID NOT RETURN" if not first["returned"] else ("PANIC " + first["panic"][:80] if first["panic"] else "answered " + first["c"]))
+        if not bad:
+            wrong = [s["name"] + "->" + s["c"] for s in e["steps"]]
+            what = "document %s as %s (%s state, %s): canary protocol %s" % (e["json"][:160], e["use"], e["state"], e["via"], wrong)
+        run.violation(what, {"event": e}, stage="total")
+    for ln in (2, 40, 300):
+        if ln < len(lines) and lines[ln - 1]:
+            e = json.loads(lines[ln - 1])
+            run.sample({"doc": e["json"], "use": e["use"], "state": e["state"], "via": e["via"],
+                        "steps": [(s["name"], s["c"]) for s in e["steps"]]})
+    run.cov["evaluations"] = run.cov.get("events_validated", 0)
+    run.cov["distinct_nontrivial"] = len(set(json.loads(x)["json"] for x in lines[1:] if x))
+    run.assumptions += ["bounded grammar (Totality!Docs, %d documents) plus three documents nested 200 deep; not open-ended fuzzing" % ndocs,
+                        "per-call watchdog 5 s; a fatal crash of the child process is attributed to the journal's last line",
+                        "ill-typed !parents and string-valued !enabled/!writeKey/!readKey are configuration, not unusual shapes (excluded)"]
+    return run.finish(level="exploration", rule="every document of the TLC-enumerated grammar (every JSON type in every reserved-key position, "
+                      "variable-looking strings as keys and values, empty / heterogeneous / nested containers; every %s-th document in "
+                      "the quick tier) x {AddFact, AddRule, SearchFacts, Query, ProcessEvent, SearchRules, AddFact-then-search-with-itself} "
+                      "x {indexed, linear} x {Location, every 4th also sys.System}; each followed by the 8-step canary protocol on the same "
+                      "location; non-trivial = distinct documents" % stride)
+
 def c14(run):
     q = run.tier == "quick"
     for cfg in ["MC_js_value_TRUE.cfg", "MC_js_value_FALSE.cfg", "MC_js_throw_TRUE.cfg", "MC_js_throw_FALSE.cfg",
@@ -292,7 +360,7 @@ def c03(run):
                            "indexed and linear state, through Location.Query; TLC compares the returned bindings as a BAG with Query!Eval; "
                            "states/transitions: QueryMC (algebraic laws of Eval on all trees up to depth 1/2 x all fact subsets)")
 
-CHECKS = {"C15": c15, "C06": c06, "C14": c14, "C17": c17, "C18": c18, "C01": c01, "C03": c03, "C04": c04, "C05": c05, "C02": c02, "C07": c07, "C08": c08, "C09": c09, "C10": c10, "C19": c19, "C20": c20}
+CHECKS = {"C13": c13, "C15": c15, "C06": c06, "C14": c14, "C17": c17, "C18": c18, "C01": c01, "C03": c03, "C04": c04, "C05": c05, "C02": c02, "C07": c07, "C08": c08, "C09": c09, "C10": c10, "C19": c19, "C20": c20}
 
 def replay(run, path):
     rejected, out = run.validate("EngineTrace.tla", "EngineTrace.cfg", path, "replay")
